@@ -19,9 +19,9 @@ SD = SPEC / "sched"
 PROPERTY_CLAUSES = {"WakeExact", "TimeMonotone", "Accounting", "PartitionIndependent", "EventsOnceInOrder"}
 
 
-def drive_one(vh: Vh, beh: Dict[str, Any], tid: int) -> List[Dict[str, Any]]:
+def drive_one(vh: Vh, beh: Dict[str, Any], tid: int, hoist: bool = False) -> List[Dict[str, Any]]:
     scripts = beh["scripts"]
-    vh.call("driver.new", scripts=scripts)
+    vh.call("driver.new", scripts=scripts, hoist=hoist)
     ev = [{"tid": tid, "ev": "Init", "scripts": scripts}]
     for b in beh["budgets"]:
         r = vh.call("driver.run_for", b=b)
@@ -35,10 +35,12 @@ def drive_shard(shard_id: int, items: List[Dict[str, Any]], extra: Any):
     meta: Dict[int, Any] = {}
     tid = shard_id * 10_000_000
     try:
-        for beh in items:
+        for k, beh in enumerate(items):
             tid += 1
-            meta[tid] = beh
-            events.extend(drive_one(vh, beh, tid))
+            # every other behaviour runs with its sleep futures created at task start and awaited later (same meaning)
+            hoist = (k % 2 == 1)
+            meta[tid] = dict(beh, hoist=hoist)
+            events.extend(drive_one(vh, beh, tid, hoist))
     finally:
         vh.close()
     return events, meta
@@ -56,7 +58,8 @@ def campaign(cr: CheckRun, items: List[Dict[str, Any]], tag: str) -> None:
     for b, beh in bad:
         rec = {"behaviour": beh, "clause": b["clause"], "line": b["line"], "detail": b["detail"]}
         if b["clause"] in PROPERTY_CLAUSES:
-            cr.violation(b["clause"], f"AsyncDriver: {b['clause']} fails for scripts={beh['scripts']} budgets={beh['budgets']} detail={b['detail']}", rec)
+            cr.violation(b["clause"], f"AsyncDriver: {b['clause']} fails for scripts={beh['scripts']} budgets={beh['budgets']}"
+                         f"{' (sleep futures created at task start)' if beh.get('hoist') else ''} detail={b['detail']}", rec)
         else:
             cr.add_drift(f"action=RunFor clause={b['clause']} scripts={beh['scripts']} budgets={beh['budgets'][:8]} detail={b['detail']}")
     cr.cov["traces_validated_against_impl"] += ntr
@@ -194,7 +197,7 @@ def replay(path: str) -> int:
     vh = Vh()
     try:
         if "behaviour" in rec:
-            ev = drive_one(vh, rec["behaviour"], 1)
+            ev = drive_one(vh, rec["behaviour"], 1, bool(rec["behaviour"].get("hoist")))
             for e in ev:
                 print(json.dumps(e))
             bad = vlib.tlc_judge_trace("C18", SD, "TraceScheduler", "TraceScheduler.cfg", ev, "replay")
